@@ -196,8 +196,7 @@ func (sl *Slicer) walk(v ssa.Value, c *sctx, path string, sliced bool) {
 	case *ssa.SliceToArrayPointer:
 		sl.walk(x.X, c, path, sliced)
 	case *ssa.Slice:
-		s2 := sliced || x.Low != nil || x.High != nil
-		sl.walk(x.X, c, path, s2)
+		sl.walk(x.X, c, path, sliced || narrowingSlice(x))
 	case *ssa.BinOp:
 		sl.walk(x.X, c, path, sliced)
 		sl.walk(x.Y, c, path, sliced)
@@ -482,4 +481,31 @@ func (sl *Slicer) LeavesInContext(chain []ssa.CallInstruction, v ssa.Value) []Le
 		res = append(res, sl.out[k])
 	}
 	return res
+}
+
+// narrowingSlice reports whether a slice expression can drop elements of its operand:
+// x[:], x[0:], x[:len(x)] and arr[:N] over a *[N]T are not narrowing.
+func narrowingSlice(x *ssa.Slice) bool {
+	if x.Low != nil {
+		if c, ok := x.Low.(*ssa.Const); !ok || c.Value == nil || c.Int64() != 0 {
+			return true
+		}
+	}
+	if x.High == nil {
+		return false
+	}
+	if c, ok := x.High.(*ssa.Const); ok && c.Value != nil {
+		if pt, ok := x.X.Type().Underlying().(*types.Pointer); ok {
+			if arr, ok := pt.Elem().Underlying().(*types.Array); ok && arr.Len() == c.Int64() {
+				return false
+			}
+		}
+		return true
+	}
+	if call, ok := x.High.(*ssa.Call); ok {
+		if bi, ok := call.Call.Value.(*ssa.Builtin); ok && bi.Name() == "len" && call.Call.Args[0] == x.X {
+			return false
+		}
+	}
+	return true
 }
